@@ -335,9 +335,18 @@ class Recorder:
         @register_native
         def recording_rule(graph):
             v = bool(rec.inner(graph))
-            rec.calls.append((raw_content(graph), v))
+            rec.calls.append((raw_content(graph), v, eq_key(graph)))
             return v
         self.rule = recording_rule
+
+
+def eq_key(graph):
+    """what LinkedGraph.__eq__ compares (used only to choose between otherwise equally good explanations of the
+    verifier log; the model computes equality itself)"""
+    try:
+        return frozenset(rn.descriptive_id for rn in graph.root_nodes())
+    except Exception:
+        return None
 
 
 def raw_content(graph):
@@ -612,7 +621,7 @@ class Inconsistent(Exception):
     pass
 
 
-def infer_mutation(pop_irefs, outs, new_info, calls, max_attempts, drawn, table):
+def infer_mutation(pop_irefs, outs, new_info, calls, max_attempts, drawn, table, parent_keys):
     """Find per-position choices (applied?, verifier calls consumed, outcome) explaining outputs and
     verifier log.  new_info: iref -> (parents irefs, graph content) for new outputs.
     Returns a list of dicts per position, or None."""
@@ -650,14 +659,15 @@ def infer_mutation(pop_irefs, outs, new_info, calls, max_attempts, drawn, table)
         if accepted:
             # (B) new individual kept
             if oi < len(outs) and outs[oi] in new_info and new_info[outs[oi]][0] == [p] \
-                    and new_info[outs[oi]][1] == cs[-1][0]:
+                    and new_info[outs[oi]][1] == cs[-1][0] and cs[-1][2] != parent_keys[pos]:
                 r = rec(pos + 1, oi + 1, k)
                 if r is not None:
                     return [{'applied': True, 'calls': cs}] + r
             # (C) accepted but equal to the parent graph: dropped
-            r = rec(pos + 1, oi, k)
-            if r is not None:
-                return [{'applied': True, 'calls': cs}] + r
+            if cs[-1][2] == parent_keys[pos]:
+                r = rec(pos + 1, oi, k)
+                if r is not None:
+                    return [{'applied': True, 'calls': cs}] + r
             return None
         # (D) every attempt rejected: dropped
         r = rec(pos + 1, oi, k)
@@ -771,7 +781,7 @@ def run_case(spec):
     facts = {'op': cfg['op'], 'rules': cfg['rules'], 'stream': spec.get('stream', '?'), 'raised': raised,
              'n_pop': len(pop), 'n_new': len(new_info), 'n_calls': len(calls)}
     vt = {}
-    for c, v in calls:
+    for c, v, _k in calls:
         key = repr(c)
         if key in vt and vt[key][1] != v:
             facts['verifier_nondeterministic'] = True
@@ -785,8 +795,9 @@ def run_case(spec):
             drawn = list(agent.drawn) + [None] * (len(pop) - len(agent.drawn))
         else:
             drawn = [0 if len(types) == 1 else None] * len(pop)
+        parent_keys = [eq_key(i.graph) for i in pop]
         sol = None if raised is not None else infer_mutation(pop_irefs, out_irefs, new_info, calls, max_attempts,
-                                                             drawn, table)
+                                                             drawn, table, parent_keys)
         ft, cs = [], []
         if sol is None:
             choice_ok = raised is not None
@@ -804,7 +815,7 @@ def run_case(spec):
                             if [tn] == nm:
                                 t = k
             atts = []
-            for c, v in s['calls']:
+            for c, v, _k in s['calls']:
                 atts.append([len(ft)])
                 ft.append(c)
             cs.append('(mk_mchoice %s %s %s)' % (c_nat(t), c_bool(s['applied']),
